@@ -343,5 +343,6 @@ def finish(ctx, level="model_checking", rule="", assumptions=None, explanation=N
     if new == 0:
         print("OK property=%s tier=%s states=%d bound_to_impl=%d evaluations=%d wall=%.0fs" %
               (ctx.pid, ctx.tier, ctx.states, ctx.traces, ctx.evaluations, time.time() - ctx.t0), flush=True)
-    shutil.rmtree(ctx.work, ignore_errors=True)
+    if not os.environ.get("VERIF_KEEP_WORK"):
+        shutil.rmtree(ctx.work, ignore_errors=True)
     return 1 if new else 0
